@@ -77,7 +77,7 @@ class Harness:
         self.initial_obs = np.array(self.env.last_obs.tensor, copy=True)
         self.static0 = self.layout.static_part(self.initial_tensor).tobytes()
         self.ledger = set()
-        self.saved = []
+        self.saved = [(self.env.current_state.copy(), dict(self.mst))]    # the initial state is always available to "g" ops
         self.shadow_steps = 0
         self.last_act = None
         self.fp = spec.fingerprint()
@@ -185,7 +185,7 @@ class Harness:
         if rec.post != rec.pred.state:
             self.diverged = f"{rec.act} side={rec.side}: real {diff(rec.pre_model, rec.post)} predicted {diff(rec.pre_model, rec.pred.state)}"
         self.mst = dict(rec.pred.state) if rec.post == rec.pred.state else dict(rec.post)
-        if rec.post_t.tobytes() != rec.pre_t.tobytes() and len(self.saved) < 12:
+        if rec.post_t.tobytes() != rec.pre_t.tobytes() and len(self.saved) < 13:
             self.saved.append((self.env.current_state.copy(), dict(self.mst)))
         self.last_act = rec.act
         if rec.act.kind == "exploit" and rec.pre[rec.act.target][0] is not True \
@@ -298,7 +298,18 @@ def _scenario(fn, owner):
         raise
 
 
-def build_harness(source, modes=None):
+def build_harness(source, modes=None, foreign=None):
+    """foreign: name of a shipped scenario of which an environment is created
+    AFTER this one and kept alive (every property must hold whether or not other
+    environments exist in the process)"""
+    h = _build_harness(source, modes)
+    if foreign:
+        import nasim
+        h.foreign = sources.make_env(nasim.load_scenario(sources.shipped_path(foreign)))
+    return h
+
+
+def _build_harness(source, modes=None):
     kind = source["kind"]
     if kind == "doc":
         doc = source["doc"]
@@ -328,7 +339,15 @@ def run_history(h, ops, on_rec, on_reset=None, both_sides=True, do_gen=True):
             if not h.saved:
                 continue
             state, mst = h.saved[op[1] % len(h.saved)]
-            act = h.choose(("p", op[2]), mst)
+            # progress / near-miss / any flat action in that EARLIER state: the result must depend
+            # on (state, action) only, whatever the environment object did in between
+            sub = op[2] % 3
+            if sub == 0:
+                act = h.choose(("p", op[2] // 3), mst)
+            elif sub == 1:
+                act = h.choose(("n", (op[2] // 3) % 9, op[2] // 27), mst)
+            else:
+                act = h.choose(("f", op[2] // 3), mst)
             rec = h.exec_gen(state, mst, act, op[3], op[4], opname="g")
             on_rec(h, rec, None)
             continue
